@@ -13,7 +13,7 @@ package ion
 // H_C11_fixed: NewBinaryWriterLST with a fixed table: text in the table is written with the table's ID; text outside
 // makes the call fail and nothing undefined is emitted.
 
-var vC11Pool = []string{"a", "c", "e", "z", "name", "y"}
+var vC11Pool = []string{"a", "c", "e", "z", "name", "$11"} // incl. text that looks like a symbol ID
 
 var vC11Names = []string{"t1", "t2", "t3"}
 
